@@ -144,6 +144,8 @@ impl Seek for DBFile {
 
 impl Read for DBFile {
     fn read(&mut self, buf: &mut [u8]) -> io::Result<usize> {
+        #[cfg(feature = "verif")]
+        crate::verif::io_tap::on_read();
         self.f.read(buf)
     }
 }
@@ -153,8 +155,18 @@ impl Write for DBFile {
         self.f.flush()
     }
 
+    #[cfg(not(feature = "verif"))]
     fn write(&mut self, buf: &[u8]) -> io::Result<usize> {
         self.f.write(buf)
+    }
+
+    #[cfg(feature = "verif")]
+    fn write(&mut self, buf: &[u8]) -> io::Result<usize> {
+        crate::verif::io_tap::before_mutation()?;
+        let offset = self.f.stream_position()?;
+        let n = self.f.write(buf)?;
+        crate::verif::io_tap::on_write(&self.p, offset, &buf[..n]);
+        Ok(n)
     }
 }
 
@@ -180,6 +192,8 @@ impl FileOperations for DBFile {
             .bypass_cache(true) // This is basically O_DIRECT. Forces the writes directly to SSD instead of being buffered by the OS cache
             .sync_on_write(false) // This is O_DSYNC (not used for now)
             .open(&path)?;
+        #[cfg(feature = "verif")]
+        crate::verif::io_tap::on_create(path.as_ref());
 
         Ok(Self {
             f,
@@ -195,6 +209,8 @@ impl FileOperations for DBFile {
             .bypass_cache(true)
             .sync_on_write(false)
             .open(&path)?;
+        #[cfg(feature = "verif")]
+        crate::verif::io_tap::on_open(path.as_ref());
         Ok(Self {
             f,
             p: path.as_ref().to_path_buf(),
@@ -208,11 +224,21 @@ impl FileOperations for DBFile {
 
     // truncate the file to 0 len
     fn truncate(&mut self) -> io::Result<()> {
+        #[cfg(feature = "verif")]
+        {
+            crate::verif::io_tap::before_mutation()?;
+            self.f.set_len(0)?;
+            crate::verif::io_tap::on_set_len(&self.p, 0);
+            return Ok(());
+        }
+        #[cfg(not(feature = "verif"))]
         self.f.set_len(0)
     }
 
     // sync the file to disk
     fn sync_all(&self) -> io::Result<()> {
+        #[cfg(feature = "verif")]
+        crate::verif::io_tap::on_sync(&self.p);
         File::sync_all(&self.f)
     }
 }
